@@ -14,6 +14,8 @@ import numpy as np
 from rv import core, fcsgen, layouts
 
 LEVEL = 'fault_enumeration'
+LEVEL_TEXT = 'Fault enumeration: truncation at every byte offset of files from the C01 lattice and single-field corruptions of $TOT/$PAR/$PnB/HEADER/TEXT offsets; the outcome must be an exception or the intact events and keywords (TEXT-extent damage judged against the C14 reference). Exhaustive over truncation points per file.'
+TECHNIQUE = 'fault enumeration (every truncation point, single-field corruptions) with an intact-or-raises oracle'
 RULE = ('files from the C01 layout lattice (<= ~1.5 kB); every truncation length 0..len-1 of each file '
         '(exhaustive per file) + single-field corruptions {$TOT,$PAR,$PnB,HEADER text/data offsets,'
         '$BEGINDATA/$ENDDATA} x {-1,+1,smaller,larger}; non-trivial = file has >=2 events; distinct = '
